@@ -135,8 +135,13 @@ def run(chk):
                         b[n // 8] |= 1 << (n % 8)
                         payloads.append(bytes(b))
                     payloads.append(bytes(rng.randrange(256) for _ in range(L)))
-                    if thorough:
-                        payloads.append(bytes(rng.randrange(256) for _ in range(L)))
+                    if thorough and L > 8:
+                        # the thorough tier enumerates EVERY (length, width, start): keep it within ~20 min by trimming
+                        # the payload set for long frames (most significant own bit, one neighbour, one random payload)
+                        msb = own[-1] if le else own[0]
+                        b = bytearray(L)
+                        b[msb // 8] |= 1 << (msb % 8)
+                        payloads = [bytes([255] * L), bytes(b)] + payloads[5:6] + payloads[-1:]
                     crosses = (min(own) // 8) != (max(own) // 8)
                     for d in payloads:
                         st, r = impl_unpack(fr, d)
